@@ -33,7 +33,7 @@ def obligations(tier):
     cutsets = [[0.5]] if tier == 'quick' else [[0.5], [0.1, 0.9]]
     for s in seqs:
         for ci, cs in enumerate(cutsets):
-            obs.append(Ob('recv:%s:c%d' % ('-'.join(map(str, s)), ci), 'recv', {'seq': s, 'cuts': cs}, timeout=300,
+            obs.append(Ob('recv:%s:c%d' % ('-'.join(map(str, s)), ci), 'recv', {'seq': s, 'cuts': cs}, timeout=300 if sum(s) <= 4 else 2400,
                           path_timeout=30, twin=True, functions=FUNCS[:6],
                           bounds='fd numbers and arrival schedule symbolic'))
         obs.append(Ob('send:%s' % '-'.join(map(str, s)), 'send', {'seq': s}, timeout=60, twin=True,
